@@ -29,7 +29,9 @@ const ModuleName = "simwork"
 type Spec struct {
 	GrammarID   string      `json:"grammar"`
 	GrammarText string      `json:"grammar_text,omitempty"`
-	GrammarFile string      `json:"grammar_file"` // file name, e.g. g.bnf
+	GrammarFile string      `json:"grammar_file"`          // file name, e.g. g.bnf
+	CwdVia      string      `json:"cwd_via,omitempty"`     // "symlink": the working directory is entered through a symbolic link (and $PWD spells it that way)
+	GrammarDir  string      `json:"grammar_dir,omitempty"` // where the grammar file lives, relative to cwd ("" = cwd, "src", ".."); prefix "ABS:" = the argument is an absolute path
 	Flags       []string    `json:"flags"`
 	OutSpec     string      `json:"out"`            // "" | relative dir | "ABS:<rel>" (absolute path below cwd)
 	Pkg         string      `json:"pkg,omitempty"`  // -p value
@@ -112,14 +114,26 @@ func (w *Worker) Exec(bin string, s *Spec, timeout time.Duration) (*Result, erro
 	if gfile == "" {
 		gfile = "g.bnf"
 	}
-	if err := os.WriteFile(filepath.Join(cwd, gfile), []byte(s.GrammarText), 0o644); err != nil {
+	gdir := strings.TrimPrefix(s.GrammarDir, "ABS:")
+	gpath := filepath.Join(cwd, gdir, gfile)
+	if err := os.MkdirAll(filepath.Dir(gpath), 0o755); err != nil {
 		return nil, err
+	}
+	if err := os.WriteFile(gpath, []byte(s.GrammarText), 0o644); err != nil {
+		return nil, err
+	}
+	garg := gfile
+	if gdir != "" {
+		garg = gdir + "/" + gfile
+	}
+	if strings.HasPrefix(s.GrammarDir, "ABS:") {
+		garg = gpath
 	}
 	// The same file is the same file: its timestamps do not change between the runs
 	// that are compared (a tree that prints the source's modification time is
 	// deterministic in the property's sense).
 	fixed := time.Date(2020, 1, 1, 0, 0, 0, 0, time.UTC)
-	os.Chtimes(filepath.Join(cwd, gfile), fixed, fixed)
+	os.Chtimes(gpath, fixed, fixed)
 	os.Chtimes(filepath.Join(w.Mod, "go.mod"), fixed, fixed)
 	args := append([]string{}, s.Flags...)
 	if s.OutSpec != "" {
@@ -132,7 +146,7 @@ func (w *Worker) Exec(bin string, s *Spec, timeout time.Duration) (*Result, erro
 	if s.Pkg != "" {
 		args = append(args, "-p", s.Pkg)
 	}
-	args = append(args, gfile)
+	args = append(args, garg)
 
 	// One environment for every run that is ever compared with another (the
 	// property speaks of the same file, flags and directory; it does not promise
@@ -180,6 +194,16 @@ func (w *Worker) Exec(bin string, s *Spec, timeout time.Duration) (*Result, erro
 	shArgs := append([]string{"-c", "ulimit -v 8388608; exec \"$0\" \"$@\"", bin}, args...)
 	cmd := exec.CommandContext(ctx, "/bin/sh", shArgs...)
 	cmd.Dir = cwd
+	if s.CwdVia == "symlink" {
+		// <worker>/lnk -> <worker>/m ; the process starts in lnk/<cwd> and $PWD says so
+		link := filepath.Join(w.Dir, "lnk")
+		os.Remove(link)
+		if err := os.Symlink(w.Mod, link); err != nil {
+			return nil, err
+		}
+		cmd.Dir = filepath.Join(link, s.Cwd)
+		env = append(env, "PWD="+cmd.Dir)
+	}
 	cmd.Env = env
 	var so, se bytes.Buffer
 	cmd.Stdout = &so
@@ -209,7 +233,7 @@ func (w *Worker) Exec(bin string, s *Spec, timeout time.Duration) (*Result, erro
 		if d.IsDir() {
 			return nil
 		}
-		if rel == "go.mod" || rel == filepath.Join(s.Cwd, gfile) {
+		if rel == "go.mod" || p == gpath {
 			return nil
 		}
 		data, err := os.ReadFile(p)
@@ -236,7 +260,10 @@ func (w *Worker) Exec(bin string, s *Spec, timeout time.Duration) (*Result, erro
 	return res, nil
 }
 
-func norm(s, root string) string { return strings.ReplaceAll(s, root, "$ROOT") }
+func norm(s, root string) string {
+	s = strings.ReplaceAll(s, root, "$ROOT")
+	return strings.ReplaceAll(s, filepath.Join(filepath.Dir(root), "lnk"), "$ROOT")
+}
 
 func (r *Result) parseLog(path string) {
 	data, err := os.ReadFile(path)
